@@ -99,7 +99,7 @@ def run(ctx):
         rf = T.to_term(it.get_attr(res, "radian_frequency", None))
         Evar = T.to_term(it.get_attr(res, "variance_density", None))
         shape = T.to_term(it.call_function(p.get_method(cls, "spectral_shape"), [res], {}, None))
-        phases = op("uniform", op("rng", seed), sp.Integer(0), 2 * sp.pi, shape)
+        phases = 2 * sp.pi * op("random01", op("rng", seed), shape)       # uniform(0, 2*pi, shape) in its canonical form
         if cls == CLS_1D:
             area, w, th = fstep, rf, sp.Integer(0)
         else:
